@@ -86,53 +86,59 @@ def run(ctx):
             if MAP_ITER.search(p):
                 ctx.fail("K5.no-entry-scan", "%s|%s" % (s.body.key.split("::", 1)[1], p.rsplit("::", 1)[1]), "the lookup uses %s: parts of the data not named by the path can influence the result" % p, where=s.where(), fn=s.body.key)
         ctx.ok("K2.scan", "lookup reach scanned for byte operations / direct indexing / entry scans (%d bodies, %s)" % (len(lu.bodies), cfg), nontrivial=True, sample={"bodies": sorted(b.key for b in lu.bodies)})
-        # helper internals
-        hpaths = [callee_path(t) for _, t in helper.calls()]
-        lens = [t for _, t in helper.calls() if callee_path(t) == "core::slice::<impl [T]>::len"]
-        gets = [t for _, t in helper.calls() if callee_path(t) == "core::slice::<impl [T]>::get"]
-        good = len(lens) == 1 and len(gets) == 1 and strip_refs(helper.trace(lens[0]["args"][0])) == ("arg", 1) and strip_refs(helper.trace(gets[0]["args"][0])) == ("arg", 1)
-        ctx.check(good, "K2.helper-same-slice", "the helper measures and reads the same slice (%s)" % cfg, "helper calls: %s" % hpaths, where=helper.where(), fn=helper.key, nontrivial=True)
-        ctx.check("core::num::<impl usize>::checked_sub" in hpaths and "core::num::<impl i64>::unsigned_abs" in hpaths, "K2.helper-negative", "negative indexes: len.checked_sub(|idx|) (%s)" % cfg, "helper calls: %s" % hpaths, where=helper.where(), fn=helper.key)
-        idx = strip_refs(helper.trace(gets[0]["args"][1])) if gets else None
-        ok_idx = idx is not None and idx[0] == "phi" and len(idx[2]) == 2
-        ctx.check(ok_idx, "K2.helper-two-ways", "the read index is |idx| (non-negative) or len-|idx| (negative) (%s)" % cfg, "read index: %s" % (show_expr(idx) if idx else None), where=helper.where(), fn=helper.key)
-        # the sign test: exactly idx >= 0 selects |idx|, exactly idx < 0 selects len - |idx|
-        sign = None
-        for sb in sorted(helper.reachable()):
-            tt = helper.blocks[sb]["term"]
-            if tt["k"] != "SwitchInt" or tt.get("dty") != "bool":
-                continue
-            e = strip_refs(helper.trace(tt["discr"]))
-            nonneg_truth = None
-            if e[0] == "binop" and e[1] in ("Ge", "Gt", "Lt", "Le"):
-                x, y = strip_refs(e[2]), strip_refs(e[3])
-                op = e[1]
-                if y == ("arg", 2) and x[0] == "const":
-                    x, y = y, x
-                    op = {"Ge": "Le", "Gt": "Lt", "Lt": "Gt", "Le": "Ge"}[op]
-                if x == ("arg", 2) and y[0] == "const" and isinstance(const_value(y[1]), int):
-                    c = const_value(y[1])
-                    nonneg_truth = {("Ge", 0): True, ("Gt", -1): True, ("Lt", 0): False, ("Le", -1): False}.get((op, c), "wrong:%s %d" % (op, c))
-            elif e[0] == "call" and e[1] and e[1]["path"] in ("core::num::<impl i64>::is_negative",) and strip_refs(e[2][0]) == ("arg", 2):
-                nonneg_truth = False
-            if nonneg_truth is not None:
-                sign = (sb, nonneg_truth)
-        ctx.check(sign is not None and isinstance(sign[1], bool), "K2.helper-sign", "the helper branches on exactly idx >= 0 / idx < 0 (%s)" % cfg,
-                  "the helper's sign test is %s: index 0 (or -1) is sent down the wrong branch" % (sign[1] if sign else "not found"), where=helper.where(), fn=helper.key, nontrivial=True)
-        if sign is not None and isinstance(sign[1], bool) and gets:
-            sb, nn = sign
-            t_nn, t_neg = bool_edge(helper, sb, nn), bool_edge(helper, sb, not nn)
-            gbi = [bi for bi, t in helper.calls() if callee_path(t) == "core::slice::<impl [T]>::get"][0]
-            anc = {n for n in helper.reachable() if sb in helper.reachable(n)}
-            def under(tg, other):
-                only = (helper.reachable(tg) - helper.reachable(other)) | {tg} | helper.reachable(gbi) | {gbi}
-                with helper.restricted(only | anc):
-                    return strip_refs(helper.trace(gets[0]["args"][1]))
-            i_nn, i_neg = under(t_nn, t_neg), under(t_neg, t_nn)
-            has_sub = lambda x: expr_mentions(x, lambda y: y[0] == "call" and y[1] and y[1]["path"] == "core::num::<impl usize>::checked_sub")
-            has_abs = lambda x: expr_mentions(x, lambda y: y[0] == "call" and y[1] and y[1]["path"] == "core::num::<impl i64>::unsigned_abs")
-            ctx.check(has_abs(i_nn) and not has_sub(i_nn) and has_sub(i_neg) and has_abs(i_neg), "K2.helper-branches", "idx >= 0 reads at |idx|, idx < 0 reads at len - |idx| (%s)" % cfg,
-                      "non-negative branch reads at %s, negative branch at %s" % (show_expr(i_nn)[:80], show_expr(i_neg)[:80]), where=helper.where(), fn=helper.key, nontrivial=True)
+        # helper internals, read off its decision cases (rules/optnorm.py): whatever the spelling (`?`, and_then, match,
+        # named booleans), every case either yields nothing or reads the slice it measured at
+        #     |idx|                 when idx >= 0
+        #     len(slice) - |idx|    when idx <  0   (checked: nothing when that would be negative)
+        from . import optnorm, pathsum
+        hc = optnorm.decision_cases(facts, helper)
+        if hc is None:
+            ctx.unread("K2.helper-branches", "index helper (%s)" % cfg, "the index helper has loops or too many paths to summarise", where=helper.where(), fn=helper.key)
+        else:
+            bad, forms = [], set()
+
+            def mentions_call(e, rx):
+                return expr_mentions(e, lambda y: y[0] == "call" and y[1] is not None and re.search(rx, y[1]["path"]) is not None)
+
+            def expand(e, depth=0):
+                """payload placeholders → the expression they are the payload of (so that |idx| and len - |idx| show)."""
+                if not isinstance(e, tuple) or depth > 12:
+                    return e
+                if e[0] == "payload":
+                    return ("payload", e[1], expand(e[2], depth + 1))
+                return tuple([expand(y, depth + 1) if isinstance(y, tuple) else y for y in x] if isinstance(x, list) else (expand(x, depth + 1) if isinstance(x, tuple) else x) for x in e)
+            for conds, v, pth in hc:
+                sign = None
+                for k, val in conds.items():
+                    if k[0] == "cmp" and k[1] == "Lt" and k[2] == "(arg 2)" and k[3] == "c:0":
+                        sign = "neg" if val else "nonneg"
+                    elif k[0] == "cmp" and k[1] == "Lt" and k[2] == "c:-1" and k[3] == "(arg 2)":
+                        sign = "nonneg" if val else "neg"         # -1 < idx
+                    elif k[0] == "cmp" and "(arg 2)" in (k[2], k[3]):
+                        sign = "wrong:%s" % (k,)
+                    elif k[0] == "pure" and "is_negative" in k[1] and "(arg 2)" in k[1]:
+                        sign = "neg" if val else "nonneg"
+                v = strip_refs(v)
+                if (v[0] == "call" and v[1] and "from_residual" in v[1]["path"]) or (v[0] == "agg" and v[1].get("variant") == "None"):
+                    continue
+                if v[0] == "agg" and v[1].get("variant") == "Some" and v[2]:
+                    v = strip_refs(v[2][0])
+                if not (v[0] == "call" and v[1] and re.search(r"^core::slice::<impl \[T\]>::get$|Index<", v[1]["path"]) and strip_refs(v[2][0]) == ("arg", 1)) and not (v[0] == "payload" and mentions_call(v[2], r"^core::slice::<impl \[T\]>::get$")):
+                    bad.append("%s: returns %s" % (sign, show_expr(v)[:70]))
+                    continue
+                idx = expand(v[2][1] if v[0] == "call" else v[2])
+                has_abs = mentions_call(idx, r"<impl i64>::(unsigned_abs|abs)$")
+                has_sub = mentions_call(idx, r"<impl usize>::(checked_sub|saturating_sub|wrapping_sub)$") or expr_mentions(idx, lambda y: y[0] == "binop" and str(y[1]).startswith("Sub"))
+                sub_of_len = expr_mentions(idx, lambda y: y[0] == "call" and y[1] is not None and y[1]["path"] == "core::slice::<impl [T]>::len" and strip_refs(y[2][0]) == ("arg", 1))
+                if sign == "nonneg" and has_abs and not has_sub:
+                    forms.add("nonneg")
+                elif sign == "neg" and has_abs and has_sub and sub_of_len:
+                    forms.add("neg")
+                else:
+                    bad.append("under %s the slice is read at %s" % (sign, show_expr(idx)[:90]))
+            ctx.check(not bad and forms == {"nonneg", "neg"}, "K2.helper-branches", "idx >= 0 reads at |idx|, idx < 0 reads at len - |idx| — on every case of the helper (%s)" % cfg,
+                      "; ".join(bad[:3]) if bad else "the helper has no case for %s indexes" % sorted({"nonneg", "neg"} - forms), where=helper.where(), fn=helper.key, nontrivial=True,
+                      sample={"cases": len(hc), "forms": sorted(forms)})
 
         # ---------------- K3 / K4 on var
         vb, ve = roles.fn_of("var")
@@ -141,43 +147,54 @@ def run(ctx):
         ctx.check(len(lk) == 1, "K3.one-lookup", "var performs one lookup (%s)" % cfg, "%d lookups" % len(lk), where=vb.where(), fn=vb.key)
         if len(lk) == 1:
             s = lk[0]
-            # the Ok result of var on the lookup path
-            r = strip_refs(vb.trace(0))
-            cands = [strip_refs(x) for x in r[2]] if r[0] == "phi" else [r]
-            sel = None
-            for c in cands:
-                if c[0] == "agg" and c[1].get("variant") == "Ok":
-                    x = strip_refs(c[2][0])
-                    if x[0] == "call" and x[1] and x[1]["path"] in ("std::option::Option::<T>::unwrap_or_else", "std::option::Option::<T>::unwrap_or"):
-                        src = strip_refs(x[2][0])
-                        if src[0] == "call" and src[3] == s.bi:
-                            sel = x
-            match_form = None
-            if sel is None:
-                from .core import option_guards
-                for (sw, t_some, t_none) in option_guards(vb, lambda x: x[0] == "call" and x[3] == s.bi):
-                    reg_some = vb.reachable(t_some) - vb.reachable(t_none)
-                    reg_none = vb.reachable(t_none) - vb.reachable(t_some)
-                    with vb.restricted(reg_some | {t_some} | (vb.reachable(t_some) & vb.reachable(t_none))):
-                        pass
-                    # value chosen on each edge: the definitions of the joined local inside the exclusive regions
-                    def chosen(region):
-                        vals = []
-                        for bi in sorted(region):
-                            for si, st in enumerate(vb.blocks[bi]["stmts"]):
-                                if st["k"] == "Assign" and not st["place"]["proj"] and vb.local_ty(st["place"]["local"]) == "serde_json::Value":
-                                    with vb.restricted(region):
-                                        vals.append(strip_refs(vb._trace_def(("stmt", bi, si, st["rv"], False), 0, frozenset())))
-                            t = vb.blocks[bi]["term"]
-                            if t["k"] == "Call" and not t["dest"]["proj"] and vb.local_ty(t["dest"]["local"]) == "serde_json::Value":
-                                vals.append(strip_refs(vb._trace_def(("call", bi, t, False), 0, frozenset())))
-                        return vals
-                    sv, nv = chosen(reg_some | {t_some}), chosen(reg_none | {t_none})
-                    found_ok = any(x[0] == "field" and x[1][0] == "downcast" and x[1][2] == "Some" for x in sv)
-                    if found_ok:
-                        match_form = nv
-            ctx.check(sel is not None or match_form is not None, "K3.default-on-none", "var returns the found value, the default only when the lookup is None (%s)" % cfg,
-                      "var's result is neither lookup.unwrap_or[_else](default) nor a match returning the Some payload: %s" % show_expr(r)[:160], where=vb.where(), fn=vb.key, nontrivial=True)
+            # the decision cases of var (rules/optnorm.py: `match`, `if let`, unwrap_or_else, map_or … in one form):
+            #   lookup found something      → exactly that value
+            #   lookup found nothing        → null, or a clone of operand 1
+            #   no lookup on the path       → a clone of the entire data (operand-less form) or an error
+            from . import optnorm
+            cases = optnorm.decision_cases(facts, vb)
+            sel = match_form = None
+            if cases is None:
+                ctx.unread("K3.default-on-none", "var (%s)" % cfg, "var has loops or too many paths to summarise", where=vb.where(), fn=vb.key)
+            else:
+                bad, kinds = [], set()
+                for conds, v, pth in cases:
+                    st = None
+                    lkey = None
+                    for k, val in conds.items():
+                        if k[0] == "variant" and k[1].startswith(lookup.key + "@"):
+                            st, lkey = val, k[1]
+                    v = strip_refs(v)
+                    if v[0] == "call" and v[1] and "from_residual" in v[1]["path"]:
+                        continue
+                    if v[0] == "agg" and v[1].get("variant") == "Err":
+                        continue
+                    inner = strip_refs(v[2][0]) if (v[0] == "agg" and v[1].get("variant") == "Ok" and v[2]) else None
+                    if inner is None:
+                        bad.append("returns %s" % show_expr(v)[:80])
+                        continue
+                    is_null = (inner[0] == "const" and "item" in inner[1] and items.get(inner[1]["item"], {}).get("ty") == VALUE) or (inner[0] == "agg" and inner[1].get("adt") == VALUE and inner[1].get("variant") == "Null")
+                    is_clone = inner[0] == "call" and inner[1] and inner[1]["path"] == CLONE
+                    if st == "Some":
+                        if inner[0] == "payload" and inner[1] == lkey:
+                            kinds.add("found")
+                        else:
+                            bad.append("lookup found a value but var returns %s" % show_expr(inner)[:80])
+                    elif st == "None":
+                        if is_null:
+                            kinds.add("null-const")
+                        elif is_clone and (operand_index(strip_refs(inner[2][0])) == 1 or _abs_operand(vb, inner[2][0]) == 1):
+                            kinds.add("operand1")
+                        else:
+                            bad.append("lookup found nothing and var returns %s" % show_expr(inner)[:80])
+                    else:
+                        if is_clone and strip_refs(inner[2][0]) == ("arg", 1):
+                            kinds.add("whole-data")
+                        else:
+                            bad.append("without a lookup var returns %s" % show_expr(inner)[:80])
+                ctx.check(not bad and "found" in kinds, "K3.default-on-none", "var returns the found value, the default only when the lookup is None (%s)" % cfg,
+                          "; ".join(bad[:3]) if bad else "no case returns the found value", where=vb.where(), fn=vb.key, nontrivial=True, sample={"cases": len(cases), "forms": sorted(kinds)})
+                ctx.check({"null-const", "operand1"} <= kinds or bad, "K3.default-value", "the default is null or a clone of operand 1 (%s)" % cfg, "default alternatives: %s" % sorted(kinds - {"found", "whole-data"}), where=vb.where(), fn=vb.key, nontrivial=True)
             # never inspects the found value
             insp = []
             for b in vu.bodies:
@@ -196,47 +213,6 @@ def run(ctx):
                 ctx.fail("K3.inspects-found", "var|%s" % b.where(bi), "var inspects the looked-up value (a present null would be treated like an absent key)", where=b.where(bi, si) if si is not None else b.where(bi), fn=b.key)
             if not insp:
                 ctx.ok("K3.inspects-found", "var never inspects the found value (%s)" % cfg, nontrivial=True)
-            # the default
-            if sel is not None:
-                d = strip_refs(sel[2][1])
-                dv = None
-                if d[0] == "agg" and d[1].get("agg") == "Closure":
-                    cb = facts.body(d[1]["closure"])
-                    rr = strip_refs(cb.trace(0))
-                    cs = [strip_refs(x) for x in rr[2]] if rr[0] == "phi" else [rr]
-                    kinds = set()
-                    for c in cs:
-                        if c[0] == "const" and "item" in c[1] and items.get(c[1]["item"], {}).get("ty") == VALUE:
-                            kinds.add("null-const")
-                        elif c[0] == "agg" and c[1].get("adt") == VALUE and c[1].get("variant") == "Null":
-                            kinds.add("null-const")
-                        elif c[0] == "call" and c[1]["path"] == CLONE:
-                            o = strip_refs(cb.xtrace(cb.blocks[c[3]]["term"]["args"][0]))
-                            if operand_index(o) == 1:
-                                kinds.add("operand1")
-                            else:
-                                kinds.add("other:" + show_expr(o)[:40])
-                        else:
-                            kinds.add("other:" + show_expr(c)[:40])
-                    dv = kinds
-            if sel is None and match_form is not None:
-                kinds = set()
-                for c in match_form:
-                    if c[0] == "const" and "item" in c[1] and items.get(c[1]["item"], {}).get("ty") == VALUE:
-                        kinds.add("null-const")
-                    elif c[0] == "agg" and c[1].get("adt") == VALUE and c[1].get("variant") == "Null":
-                        kinds.add("null-const")
-                    elif c[0] == "call" and c[1] and c[1]["path"] == CLONE:
-                        o = strip_refs(c[2][0])
-                        if operand_index(o) == 1:
-                            kinds.add("operand1")
-                        else:
-                            kinds.add("other:" + show_expr(o)[:40])
-                    else:
-                        kinds.add("other:" + show_expr(c)[:40])
-                ctx.check(kinds == {"null-const", "operand1"}, "K3.default-value", "the default is null or a clone of operand 1 (%s)" % cfg, "default alternatives: %s" % sorted(kinds), where=vb.where(), fn=vb.key, nontrivial=True)
-            if sel is not None:
-                ctx.check(dv == {"null-const", "operand1"}, "K3.default-value", "the default is null or a clone of operand 1 (%s)" % cfg, "default alternatives: %s" % (sorted(dv) if dv else show_expr(d)[:80]), where=vb.where(), fn=vb.key, nontrivial=True)
         # whole-data forms
         whole = []
         for b in [vb, lookup] + [x for x in lu.bodies if x.kind == "fn" and x.key not in (lookup.key,)]:
@@ -298,9 +274,27 @@ def run(ctx):
                     step_matrix(ctx, facts, roles, facts.body(clos[1]["closure"]), helper, cfg)
 
 
+def _abs_operand(body, e):
+    """Index of the operand e denotes, through split_first / skip / slicing (rules/operands.py)."""
+    from . import operands as OD
+    ap = None
+    for l in range(1, body.arg_count + 1):
+        if "std::vec::Vec<&" in body.local_ty(l):
+            ap = l
+    if ap is None:
+        return None
+    e = strip_refs(e)
+    while e[0] == "payload":
+        src = strip_refs(e[2])
+        e = ("field", ("downcast", src, "Some"), 0)
+    return OD.absolute_index(OD.describe(body, e, ap))
+
+
 def operand_index(o):
     """Index n when expression o is the n-th element of an operand vector: v[n], v.get(n)?, v.first()? — else None."""
     o = strip_payload(strip_refs(o))
+    while o[0] == "payload":          # normalised `(x as Some).0` (rules/optnorm.py)
+        o = strip_payload(strip_refs(o[2]))
     if o[0] != "call" or not o[1]:
         return None
     p = o[1]["path"]
@@ -332,7 +326,13 @@ def split_transducer(ctx, facts, w, it, cfg):
     ctx.check(d[0] == "const" and const_value(d[1]) == ".", "K6.delimiter", "the path is split at '.' (%s)" % cfg, "the walker splits at %s" % show_expr(d), where=w.where(), fn=w.key, nontrivial=True)
     src = strip_refs(call[2][strs[0] - 1])
     ctx.check(expr_mentions(src, lambda x: x == ("arg", 2)) and not expr_mentions(src, lambda x: x[0] == "call" and x[1] and not re.search(r"as_ref$|as_str$|deref$|borrow$", x[1]["path"])), "K6.whole-key", "the whole key text is split (%s)" % cfg, "the walker splits %s" % show_expr(src)[:80], where=w.where(), fn=w.key)
-    tr = Transducer(sb)
+    from .engine import Inconclusive as _Inc
+    try:
+        tr = Transducer(sb)
+    except _Inc as e_:
+        # a splitter that is not a one-flag loop over the characters: nothing is claimed about it
+        ctx.unread("K6.transducer", "splitter (%s)" % cfg, "the splitter is written in a form the transducer reader does not read (%s)" % e_, where=sb.where(), fn=sb.key)
+        return
     ie = tr.iter_expr
     plain = not expr_mentions(ie, lambda x: x[0] == "call" and x[1] and not re.search(r"(::chars|IntoIterator>::into_iter|::by_ref)$", x[1]["path"]))
     ctx.check(tr.next_path.startswith("<std::str::Chars") and plain and expr_mentions(ie, lambda x: x == ("arg", strs[0])), "K6.by-character", "the splitter walks the characters of its input in order (%s)" % cfg,
